@@ -1,9 +1,10 @@
 #!/usr/bin/env python3
 """Print the DESIGN.md §18 table from /verif/seeded/*/meta.json."""
-import glob, json, os
+import glob, json, os, subprocess
 
 VERIF = os.path.dirname(os.path.dirname(os.path.abspath(__file__)))
 rows = []
+cur = subprocess.run(["git", "-C", VERIF, "log", "-1", "--format=%h", "--", "sim", "check"], capture_output=True, text=True).stdout.strip()
 notes = {}
 np = os.path.join(VERIF, "seeded", "NOTES.json")
 if os.path.exists(np):
@@ -23,6 +24,9 @@ for m in sorted(glob.glob(os.path.join(VERIF, "seeded", "*", "meta.json"))):
     if len(needs) > 220:
         needs = needs[:217] + "…"
     note = notes.get(name, d.get("note", ""))
+    hc = d.get("harness_commit")
+    if hc != cur:
+        note = (note + "; " if note else "") + "last evaluated with the harness of %s" % (hc or "an earlier commit of this round")
     rows.append("| %s | %s | %s | %s | %s |" % (name, needs, caught, ", ".join(classes[:3]) or ("" if caught != "—" else "not caught"), note))
 print("| Seeded change | Needs, to manifest | Caught by | Violation class | Note |")
 print("|---|---|---|---|---|")
